@@ -377,7 +377,7 @@ class Analysis:
         if fname in VIEW_FUNCS:
             self.notes.add("view_functions")
             out = frozenset()
-            for v in allv:
+            for v in (args[:1] if args else allv):      # the result may alias the array handed in (not the dtype / axes arguments)
                 out |= flat(v)
             return out | {FRESH}
         if fname in MUTATING_FUNCS:
